@@ -10,6 +10,7 @@ from __future__ import annotations
 import datetime
 import functools
 import inspect
+import os
 import warnings
 
 import dags
@@ -95,8 +96,92 @@ def _dag_info_cached(iso: str, targets_key: tuple, data_cols_key: tuple):
     }
 
 
+SUPPORTED_START = datetime.date(2015, 1, 1)
+
+
+def _battery(d):
+    """A few deterministic valid populations used to screen which nodes can be computed at an early date."""
+    from hypothesis import HealthCheck, given, seed, settings
+
+    from . import popgen
+
+    pops = []
+
+    @seed(20150101)
+    @settings(max_examples=8, deadline=None, database=None, suppress_health_check=list(HealthCheck))
+    @given(popgen.populations(d, mode="branch", max_households=3))
+    def body(pop):
+        pops.append(pop.df)
+
+    body()
+    return pops
+
+
+@functools.lru_cache(maxsize=64)
+def _base_targets_cached(iso: str):
+    """Early dates (before 2015 the system is not complete: C08 starts there): the rules active at the
+    date whose ancestors are documented inputs / loaded parameter groups only (static screen) and that
+    a battery of valid populations can be simulated for (dynamic screen; e.g. Elterngeld before 2011
+    raises NotImplementedError).  This only delimits the *domain* of the metamorphic checks."""
+    import traceback
+
+    import networkx as nx
+
+    d = to_date(iso)
+    params, functions = policy_env(iso)
+    cols = tuple(sorted(TYPES_INPUT_VARIABLES))
+    cand = sorted(functions)
+    while True:
+        try:
+            dag, not_over, _ = build_dag(functions, tuple(cand), cols)
+            break
+        except ValueError as e:  # "targets have no corresponding function" cannot happen for rule names
+            raise
+    ok = []
+    for n in cand:
+        if n not in dag:
+            continue
+        anc = nx.ancestors(dag, n) | {n}
+        roots = [a for a in anc if dag.in_degree(a) == 0 and a not in not_over]
+        if all((r in TYPES_INPUT_VARIABLES) or (r.endswith("_params") and r[: -len("_params")] in params) for r in roots):
+            ok.append(n)
+    ok = set(ok)
+    pops = _battery(d)
+    for _ in range(60):
+        culprit = None
+        for df in pops:
+            try:
+                simulate(df, d, targets=sorted(ok))
+            except Exception as e:  # noqa: BLE001
+                names = [f.name for f in traceback.extract_tb(e.__traceback__) if "/_gettsim/" in f.filename]
+                by_def = {getattr(functions[nm], "__name__", nm): nm for nm in ok if nm in functions}
+                culprit = next((by_def.get(nm, nm) for nm in reversed(names) if by_def.get(nm, nm) in ok), None)
+                if culprit is None:
+                    # raised outside a rule (e.g. a missing rounding specification): the longest node name
+                    # mentioned in the message
+                    culprit = max((nm for nm in ok if nm in str(e)), key=len, default=None)
+                if culprit is None:
+                    if os.environ.get("VF_DEBUG"):
+                        print("screen: no culprit", iso, type(e).__name__, str(e)[:300], names[-4:])
+                    return ()
+                break
+        if culprit is None:
+            break
+        ok -= nx.descendants(dag, culprit) | {culprit}
+    return tuple(sorted(ok))
+
+
+def base_targets(d):
+    """DEFAULT_TARGETS from 2015-01-01 on (what C08 is about); before that date every rule that can be
+    computed from documented inputs (see _base_targets_cached)."""
+    d = to_date(d)
+    if d >= SUPPORTED_START:
+        return tuple(DEFAULT_TARGETS)
+    return _base_targets_cached(d.isoformat())
+
+
 def dag_info(d, targets=None, data_cols=None):
-    targets = tuple(sorted(DEFAULT_TARGETS if targets is None else targets))
+    targets = tuple(sorted(base_targets(d) if targets is None else targets))
     data_cols = tuple(sorted(TYPES_INPUT_VARIABLES if data_cols is None else data_cols))
     return _dag_info_cached(to_date(d).isoformat(), targets, data_cols)
 
